@@ -36,10 +36,11 @@ impl EventLog {
         if rip_kernel::verif::fail_point("log.enter", || verif_fields(event, line.len())) {
             return Err(io::Error::other("verif: injected append failure"));
         }
+        let mut line = line;
+        line.push('\n');
         writer.write_all(line.as_bytes())?;
         #[cfg(rip_verif)]
         rip_kernel::verif::point("log.body", || verif_fields(event, line.len()));
-        writer.write_all(b"\n")?;
         writer.flush()?;
         #[cfg(rip_verif)]
         rip_kernel::verif::point("log.flushed", || verif_fields(event, line.len()));
